@@ -206,6 +206,39 @@ Definition spec_gives_up (c : mcase) : bool :=
            || negb (is_nil (sn_out sn))
    end).
 
+(* ---- C09 monitor: every restart counts --------------------------------------------------------------------
+   whenever the machine answers a child's termination by beginning a restart (one_for_one / simple_one_for_one:
+   it asks for the child to be started again; all_for_one / rest_for_one in normal mode: it starts the child
+   again at once or begins to stop the group for the restart), whatever the strategy and the exit reason that
+   made the restart necessary, the restart was put on the record the intensity check counts
+   (the [restarts] list changed: pruned entries go, the new timestamp is appended) *)
+Definition begins_restart (k : config) (prev : state) (o : obs) : bool :=
+  match o_call o with
+  | CTerminated _ _ _ _ =>
+      negb (shutting k prev) &&
+      (if is_arfo k then mode prev =? 0 else true) &&
+      match o_res o with
+      | RAct (StartChild _) => true
+      | RAct (TerminateChildren _ r) => negb (r =? RExceeded) && is_arfo k && (mode (o_state o) =? 2)
+      | RAct DoNothing => is_arfo k && ((mode (o_state o) =? 2) || (mode (o_state o) =? 1))
+      | _ => false
+      end
+  | _ => false
+  end.
+Fixpoint counted_from (k : config) (prev : state) (l : list obs) : bool :=
+  match l with
+  | [] => true
+  | o :: tl => (negb (begins_restart k prev o) || negb (zlist_eqb (restarts (o_state o)) (restarts prev))) &&
+               counted_from k (o_state o) tl
+  end.
+Definition spec_restart_counted (c : mcase) : bool := counted_from (mc_cfg c) empty_state (mc_trace c).
+Fixpoint any_restart (k : config) (prev : state) (l : list obs) : bool :=
+  match l with
+  | [] => false
+  | o :: tl => begins_restart k prev o || any_restart k (o_state o) tl
+  end.
+Definition premise_restarted (c : mcase) : bool := any_restart (mc_cfg c) empty_state (mc_trace c).
+
 (* ---- C10 monitor: the supervisor takes its children along ------------------------------------------------
    whenever the observed supervisor terminated through an action of its machine (any reason except a
    failed Spawn, whose error leaves ProcessRun directly), no child it started is still alive.
